@@ -1,1 +1,2 @@
 pub mod probe;
+pub mod failio;
